@@ -31,6 +31,11 @@ P = {
          "WaitGroup release and close of both connections are deferred before the first return and the closer always reaches Close; wg.Add matches the goroutines started; session gauge paired; covert and client connections closed by defers. "
          "This covers every fault position structurally (each exit edge of the loop), which the sampled fault tests cannot; stream equality under all chunkings is not decided.",
          "4/C05"),
+ "C06": (True, "single-resolution count, value-flow of the returned literal, guard dominance of the policy tests and their polarity, must-pass store-before-valid, who-may-write (Covert), reviewed dial-site table (go/ssa)",
+         "Decides for every covert string and configuration: the guard resolves at most once and every non-empty result is JoinHostPort of that one resolution's address, dominated by the not-blocklisted edges of the subnet test on that same address and of the domain test on the resolved host, a 16-bit port parse and a successful resolution; the subnet test consults allowlist/blocklist with the right polarity; "
+         "no path reaches AddRegistration without storing that literal into reg.Covert and passing its non-empty test; Covert has exactly the two reviewed writers; the proxy dials the stored string verbatim and no other dial site in station code takes a value derived from a registration's covert or original message. "
+         "Textual address forms and subnet arithmetic are not decided.",
+         "4/C06"),
  "C08": (True, "value-flow key agreement, must-pass pairing, finite predicate abstraction (truth table) of the sweep condition, constant tables (go/ssa)",
          "Decides: the timeout map is keyed by the same function of (phantom, transport identifier) as the registration map at insertion and activation (so each tracked registration has its own record for every history of secrets/transports/families); "
          "both maps are inserted into / deleted from on the same paths and empty per-phantom maps are removed; the sweep selects a record iff (unused && age>T_unused) || age>T_active, exhaustively over all valuations of its atoms; T_unused=10 min and T_active=6 h with no other writer; activation flips the looked-up record; a ticker loop sweeps. "
